@@ -509,13 +509,54 @@ Json::Value genJsonDoc() {
   return c;
 }
 
+// {"sub":"typed","args":{..},"expect":{..}|null}: typed arguments through the real parser
+Json::Value genTyped() {
+  Json::Value c(Json::objectValue);
+  c["sub"] = "typed";
+  Json::Value& a = c["args"];
+  a = Json::Value(Json::objectValue);
+  bool valid = true;
+  auto big = [&](bool allowNeg) -> std::string {
+    int cls = W({25, 20, 20, 20, 15});
+    int64_t v = 0;
+    if (cls == 0) v = R64(0, 1000);
+    if (cls == 1) v = R64(int64_t(1) << 31, int64_t(1) << 33); // just above 32 bits
+    if (cls == 2) v = R64(int64_t(1) << 33, int64_t(1) << 62);
+    if (cls == 3) v = P(50) ? INT64_MAX : INT64_MAX - R64(0, 1000);
+    if (cls == 4) v = (int64_t(1) << R(31, 62)) + R64(-2, 2);
+    if (allowNeg && P(25)) v = -v;
+    return std::to_string(v);
+  };
+  if (P(70)) a["l"] = big(true);
+  if (P(70)) a["ms"] = big(false);
+  if (P(60)) a["i"] = std::to_string(P(80) ? R64(-2147483647, 2147483647) : (P(50) ? R64(2147483648LL, int64_t(1) << 40) : -R64(2147483649LL, int64_t(1) << 40)));
+  if (P(50)) a["u"] = std::to_string(R64(0, 2147483647));
+  if (P(60)) {
+    std::string d = std::to_string(R64(0, 1000000)) + "." + digits(R(1, 12), false);
+    if (P(20)) d = "-" + d;
+    if (P(15)) d += "e" + std::to_string(R(-20, 20));
+    a["d"] = d;
+  }
+  if (P(60)) a["f"] = std::to_string(R(0, 1000)) + "." + digits(R(1, 6), false);
+  if (P(40)) a["b"] = oneOf(std::vector<std::string>{"true", "false", "True", "False", "1", "0"});
+  if (P(40)) a["s"] = oneOf(std::vector<std::string>{"", "x", " 1.5G ", "9223372036854775807"});
+  if (P(40)) a["r"] = P(50) ? "io" : "memory";
+  if (a.isMember("i")) {
+    long long iv = atoll(a["i"].asCString());
+    if (iv > 2147483647LL || iv < -2147483648LL) valid = false;
+  }
+  c["valid"] = valid;
+  return c;
+}
+
 Json::Value gen() {
-  int k = W({30, 18, 30, 10, 12});
+  int k = W({28, 16, 28, 8, 10, 10});
   if (k == 0) return genSize();
   if (k == 1) return genPct();
   if (k == 2) return genIR();
   if (k == 3) return genOrder();
-  return genJsonDoc();
+  if (k == 4) return genJsonDoc();
+  return genTyped();
 }
 
 // ----------------------------------------------------------------- run -----
@@ -668,6 +709,59 @@ Verdict run(const Json::Value& c) {
     }
     v.nontrivial = expect == "reject";
     v.labels.push_back(expect == "reject" ? "ir_one_defect" : "ir_valid");
+    g.active = false;
+    return v;
+  }
+  if (sub == "typed") {
+    Oomd::Config2::IR::Root root;
+    Json::Value rs(Json::objectValue);
+    rs["name"] = "r";
+    Json::Value dg(Json::objectValue);
+    dg["name"] = "g";
+    Json::Value p(Json::objectValue);
+    p["name"] = "vp_typed";
+    p["args"] = c["args"];
+    dg["detectors"].append(p);
+    rs["dgs"].append(dg);
+    Json::Value a(Json::objectValue);
+    a["name"] = "vp_action";
+    a["args"]["id"] = "a";
+    rs["acts"].append(a);
+    root.rulesets.push_back(toRuleset(rs));
+    size_t mark = g.trace.size();
+    bool accepted = false;
+    try {
+      accepted = Oomd::Config2::compile(root, pcc) != nullptr;
+    } catch (const std::exception& e) {
+      v.fail(std::string("compile() threw ") + e.what());
+    }
+    const Ev* ev = nullptr;
+    for (size_t i = mark; i < g.trace.size(); i++)
+      if (g.trace[i].k == "plugin" && g.trace[i].s == "typed_init") ev = &g.trace[i];
+    bool valid = c["valid"].asBool();
+    if (v.ok && valid && !accepted) v.fail("valid typed arguments rejected: " + jstr(c["args"]));
+    if (v.ok && !valid && accepted) v.fail("an int argument outside the range of int was accepted: " + jstr(c["args"]));
+    if (v.ok && valid && ev) {
+      const Json::Value& a2 = c["args"];
+      auto bad = [&](const std::string& name, const std::string& got) {
+        v.fail("argument " + name + "=" + a2[name].asString() + " arrived in the plugin as " + got);
+      };
+      if (a2.isMember("l") && ev->j["l"].asInt64() != atoll(a2["l"].asCString())) bad("l", jstr(ev->j["l"]));
+      if (a2.isMember("ms") && ev->j["ms"].asInt64() != atoll(a2["ms"].asCString())) bad("ms", jstr(ev->j["ms"]));
+      if (a2.isMember("i") && ev->j["i"].asInt64() != atoll(a2["i"].asCString())) bad("i", jstr(ev->j["i"]));
+      if (a2.isMember("u") && ev->j["u"].asInt64() != atoll(a2["u"].asCString())) bad("u", jstr(ev->j["u"]));
+      if (a2.isMember("d") && ev->j["d"].asDouble() != strtod(a2["d"].asCString(), nullptr)) bad("d", jstr(ev->j["d"]));
+      if (a2.isMember("f") && (float)ev->j["f"].asDouble() != strtof(a2["f"].asCString(), nullptr)) bad("f", jstr(ev->j["f"]));
+      if (a2.isMember("s") && ev->j["s"].asString() != a2["s"].asString()) bad("s", jstr(ev->j["s"]));
+      if (a2.isMember("r") && ev->j["r"].asString() != a2["r"].asString()) bad("r", jstr(ev->j["r"]));
+      if (a2.isMember("b")) {
+        std::string b = a2["b"].asString();
+        bool want = b == "true" || b == "True" || b == "1";
+        if (ev->j["b"].asBool() != want) bad("b", jstr(ev->j["b"]));
+      }
+    }
+    v.nontrivial = c["args"].isMember("l") || c["args"].isMember("ms") || c["args"].isMember("d");
+    v.labels.push_back("typed");
     g.active = false;
     return v;
   }
